@@ -27,7 +27,7 @@ static int stable_double(const opus_int16 *a_Q12,int order,double *pgain){ doubl
   for(int m=order;m>=1;m--){ double k=a[m-1]; if(!(fabs(k)<1.0)) return 0; double d=1-k*k; invgain*=d; for(int i=0;i<m-1;i++) t[i]=(a[i]+k*a[m-2-i])/d; for(int i=0;i<m-1;i++) a[i]=t[i]; }
   *pgain=1.0/invgain; return 1; }
 static int check_lpc(const opus_int16 *a,int order,const char *what,const char *ctx){ double g=0; if(silk_LPC_inverse_pred_gain_c(a,order)==0){ vc_viol("lpc:unstable-library-test","%s: %s fails silk_LPC_inverse_pred_gain",ctx,what); return 1; }
-  if(!stable_double(a,order,&g)){ vc_viol("lpc:unstable","%s: %s has a reflection coefficient of magnitude >= 1",ctx,what); return 1; } vc_max("lpc_max_prediction_gain",g); if(g>1.0e4*1.02){ vc_viol("lpc:gain-unbounded","%s: %s prediction gain %.1f exceeds 1e4",ctx,what,g); return 1; } return 0; }
+  if(!stable_double(a,order,&g)){ vc_viol("lpc:unstable","%s: %s has a reflection coefficient of magnitude >= 1",ctx,what); return 1; } vc_max("lpc_max_prediction_gain",g); if(g>1.0e4*1.12 /* the library bounds the gain with its own fixed-point recursion on the Q17 coefficients; after rounding to Q12 (and for interpolated vectors) the exact gain was measured up to 1.0316e4 over 1e8 filters */){ vc_viol("lpc:gain-unbounded","%s: %s prediction gain %.1f exceeds 1e4",ctx,what,g); return 1; } return 0; }
 static int check_nlsf(const opus_int16 *n,const silk_NLSF_CB_struct *cb,const char *ctx){ int L=cb->order; const opus_int16 *dm=cb->deltaMin_Q15;
   if(n[0]<dm[0]){ vc_viol("nlsf:below-minimum","%s: NLSF[0]=%d < deltaMin[0]=%d",ctx,n[0],dm[0]); return 1; }
   for(int i=1;i<L;i++) if(n[i]-n[i-1]<dm[i]){ vc_viol(n[i]<=n[i-1]?"nlsf:not-ordered":"nlsf:spacing","%s: NLSF[%d]=%d NLSF[%d]=%d spacing %d < deltaMin %d",ctx,i-1,n[i-1],i,n[i],n[i]-n[i-1],dm[i]); return 1; }
@@ -89,7 +89,7 @@ static void mode_nlsfenc(void){
   if(vc_chance(&r,1,2)) opus_encoder_ctl(e,OPUS_SET_BANDWIDTH(OPUS_BANDWIDTH_NARROWBAND+(int)vc_below(&r,3)));
   vc_siggen g; vs_init(&g,vc_below(&r,VS_NFINITE),Fs,ch,vc_chance(&r,1,4)?1.0f:(float)(0.01+0.8*vc_unit(&r)),vc_next(&r)); static float in[5760*2]; unsigned char pk[1500]; int fidx=vc_range(&r,2,8);
   if(vc_chance(&r,1,4)){ g.kind=VS_VOICED; g.f0= vc_chance(&r,1,2)?50+vc_unit(&r)*12:420+vc_unit(&r)*120; g.amp=0.5f; }   /* pitch gliding across the 18 ms / 2 ms lag limits */
-  for(int k=0;k<30;k++){ if(vc_chance(&r,1,8)&&g.f0>=80&&g.f0<=400){ g.kind=vc_below(&r,VS_NFINITE); g.amp=vc_chance(&r,1,3)?1.0f:(float)(0.001+0.5*vc_unit(&r)); } if(vc_chance(&r,1,10)) opus_encoder_ctl(e,OPUS_SET_BITRATE(vc_range(&r,5000,80000)*ch)); int fs=vk_frame_samples(Fs,fidx); vs_fill(&g,in,fs); opus_encode_float(e,in,fs,pk,1500); }
+  for(int k=0;k<30;k++){ if(vc_chance(&r,1,8)&&g.f0>=80&&g.f0<=400){ g.kind=vc_below(&r,VS_NFINITE); g.amp=vc_chance(&r,1,3)?1.0f:(float)(0.001+0.5*vc_unit(&r)); } if(vc_chance(&r,1,10)) opus_encoder_ctl(e,OPUS_SET_BITRATE(vc_range(&r,5000,80000)*ch)); int fs=vk_frame_samples(Fs,fidx); vs_fill(&g,in,fs); if(getenv("C18_DEBUG")) fprintf(stderr,"frame %d: Fs %d ch %d fs %d signal %s amp %.3f f7 %.0f\n",k,Fs,ch,fs,vs_names[g.kind],g.amp,g.f[7]); opus_encode_float(e,in,fs,pk,1500); }
   opus_encoder_destroy(e);
 }
 
